@@ -269,7 +269,10 @@ static int evaluate(unsigned quirks, struct mismatch *mm)
 			if (collect_evidence == 1) {
 				pages_compared++;
 				if (!m_mem_empty(&c->mem[c->disp])) {
+					static const char *const cn[5] = { "nonempty_pages_compared_no_style", "nonempty_pages_compared_pop-on", "nonempty_pages_compared_roll-up",
+						"nonempty_pages_compared_paint-on", "nonempty_pages_compared_text" };
 					nonempty_compared = 1;
+					vf_count(cn[c->style], 1);
 					vf_sig("st=%d d=%d row=%d col=%s cmd=%s pg=%s", c->style, c->style == S_ROLL ? c->depth : 0, c->row,
 					       c->col <= 1 ? "1" : c->col >= 32 ? "32" : "2-31", m_cl_name[c->last_cmd], p >= 4 ? "T" : "CC");
 				}
@@ -511,6 +514,8 @@ static unsigned judge(void)
 	for (k = 0; k < n_snaps; k++)
 		for (p = 0; p < 8; p++) {
 			if (snaps[k].changed[p]) vf_count("page_changes_observed", 1);
+			if (snaps[k].changed[p] && snaps[k].ev[p]) vf_count("page_changes_announced_by_event", 1);
+			if (!snaps[k].changed[p] && snaps[k].ev[p]) vf_count("intervals_with_event_but_same_page", 1);
 			if (snaps[k].changed[p] && snaps[k].ev[p] == 0) {
 				static const char *const stn[5] = { "none", "pop-on", "roll-up", "paint-on", "text" };
 				char key[96];
@@ -1415,7 +1420,9 @@ static const struct { int q; const char *script; } witness[] = {
 	{ Q_PAC_INDENT_DESTRUCTIVE, "RDC PAC15,0 ' bcdef ' PAC15,4 ' ' !" },
 	{ Q_CURSOR_COL33,           "RDC PAC15,28 'abcd' BS ' ' !" },
 	{ Q_CR_IN_POP_PAINT,        "RDC PAC5,0 'a ' CR 'b ' !" },
-	{ Q_PEN_ATTRIBUTES,         "RU2 PAC15,c1 'green ' CR 'white ' !" },
+	{ Q_CR_POP_ON_SHOWS_ROW,    "RCL PAC15,0 'hidden ' CR !" },
+	{ Q_ATTRS_SURVIVE_ROW_END,  "RU2 PAC15,c1 'green ' CR 'white ' !" },
+	{ Q_PEN_ATTRIBUTES,         "RDC PAC15,c1 'ab' MR4 BS 'c ' !" },
 	{ Q_RU_DEPTH_CHANGE_ERASES, "RU3 PAC15,0 'one ' CR 'two ' RU2 !" },
 	{ Q_EDM_ENM_IN_TEXT_MODE,   "RU2 PAC15,0 'cap ' TR 'txt ' EDM !" },
 	{ Q_TEXT_PAC_MOVES_ROW,     "TR 'a ' PAC5,0 'b ' !" },
@@ -1425,6 +1432,35 @@ static const struct { int q; const char *script; } witness[] = {
 	{ Q_LINE_BUFFER, "RU2 PAC15,0 'roll ' RCL PAC3,0 'pop' EOC !" },
 };
 #define N_WITNESS ((int)(sizeof witness / sizeof witness[0]))
+
+/* every quirk switch must change what the model computes for its witness (a dead switch would make
+ * the "disappears exactly with" test meaningless); Q-stale-solid-space acts in the comparison only */
+static void selftest_witnesses(void)
+{
+	static struct model a, b;
+	int w, p, i;
+	for (w = 0; w < N_WITNESS; w++) {
+		int differs = 0;
+		if (witness[w].q == Q_STALE_SOLID_SPACE) continue;
+		if (!script_build(witness[w].script)) { vf_fail("selftest:C08:script", "cannot assemble: %s", witness[w].script); continue; }
+		m_init(&a, 0); m_init(&b, QBIT(witness[w].q));
+		for (i = 0; i < n_frames; i++) {
+			m_feed(&a, 0, frames[i].p[0][0], frames[i].p[0][1]); m_feed(&a, 1, frames[i].p[1][0], frames[i].p[1][1]);
+			m_feed(&b, 0, frames[i].p[0][0], frames[i].p[0][1]); m_feed(&b, 1, frames[i].p[1][0], frames[i].p[1][1]);
+			if (!frames[i].ck) continue;
+			for (p = 0; p < 8; p++) {
+				int r, col;
+				const struct m_mem *x = &a.ch[p].mem[a.ch[p].disp], *y = &b.ch[p].mem[b.ch[p].disp];
+				for (r = 0; r < M_ROWS; r++)
+					for (col = 0; col < M_COLS; col++) {
+						const struct m_cell *cx = &x->c[r][col], *cy = &y->c[r][col];
+						if (cx->kind != cy->kind || cx->code != cy->code || (cx->kind != K_EMPTY && memcmp(&cx->a, &cy->a, sizeof cx->a))) differs = 1;
+					}
+			}
+		}
+		if (!differs) vf_fail("selftest:C08:quirk-switch", "%s does not change the model's display memory for its witness [%s]", m_quirk_name[witness[w].q], witness[w].script);
+	}
+}
 
 static int run_witness(long idx)
 {
@@ -1437,6 +1473,7 @@ static int run_witness(long idx)
 	S = judge();
 	vf_count("witness_sequences", 1);
 	if (S == 0) { vf_count("witness_no_longer_diverging", 1); return 1; }     /* repaired in the tree under test */
+	if (S == QBIT(witness[w].q)) vf_count(m_quirk_open[witness[w].q] == QK_OPEN ? "witness_open_quirk_confirmed" : "witness_repaired_quirk_present", 1);
 	if (S != QBIT(witness[w].q)) {
 		char key[96];
 		snprintf(key, sizeof key, "selfcheck:C08:witness:%s", m_quirk_name[witness[w].q]);
@@ -1470,6 +1507,7 @@ static void selftest(void)
 {
 	selftest_vectors();
 	selftest_corpus();
+	selftest_witnesses();
 }
 
 int main(int argc, char **argv) { return vf_main(argc, argv, run_case, selftest); }
